@@ -9,7 +9,7 @@ from ..cfg import CFG
 from ..frontend import AnalysisError, walk_function, walk_stmts
 from ..ordertable import parse_pred
 from ..report import norm_text
-from ..witness import witness, twin
+from ..witness import witness, twin, repair
 
 LEVEL = "other"
 D = "pylife.stress.rainflow.fkm_nonlinear:FKMNonlinearDetector."
@@ -68,29 +68,58 @@ def _r1(ctx):
         ctx.holds(fa, zeros[0], "a zero load is prepended (scalar and multi-point input)")
     else:
         ctx.violated(fa, fa.node, "first-run adjustment does not prepend a zero load in both input layouts", text="zero prepend")
+    # look-ahead for the flush decision: T = concatenate([A, B]); flush iff index len(A)-1 is a turning point of T.
+    # A is what pass 1 processes (zero-prefixed); B must be what pass 2 processes, i.e. the same samples WITHOUT the zero.
     dbl = [s for s in fa.node.body if isinstance(s, ast.Assign) and isinstance(s.value, ast.Call) and call_name(s.value) == "np.concatenate"
-           and isinstance(s.value.args[0], ast.List) and len(s.value.args[0].elts) == 2 and
-           norm_text(s.value.args[0].elts[0]) == norm_text(s.value.args[0].elts[1])]
+           and isinstance(s.value.args[0], ast.List) and len(s.value.args[0].elts) == 2 and isinstance(s.targets[0], ast.Name) and
+           any((call_name(c) or "").endswith("find_turns") and c.args and isinstance(c.args[0], ast.Name) and
+               c.args[0].id == s.targets[0].id for c in calls_in(fa.node))]
     test = [s for s in fa.node.body if isinstance(s, ast.If) and isinstance(s.test, ast.Compare) and isinstance(s.test.ops[0], ast.NotIn)]
-    ok = False
-    if dbl and test:
-        seq = norm_text(dbl[0].value.args[0].elts[0])
-        ok = norm_text(test[0].test.left) == "len(%s) - 1" % seq and \
-            any(isinstance(x, ast.Assign) and const_value(x.value) is False for x in test[0].body)
-        rt = [s for s in fa.node.body if isinstance(s, ast.Return)][-1]
-        fname = rt.value.elts[1].id if isinstance(rt.value, ast.Tuple) and len(rt.value.elts) == 2 and \
-            isinstance(rt.value.elts[1], ast.Name) else None
-        init = [s for s in fa.node.body if isinstance(s, ast.Assign) and isinstance(s.targets[0], ast.Name) and
-                s.targets[0].id == fname and const_value(s.value) is True]
-        ok = ok and any(isinstance(x, ast.Assign) and isinstance(x.targets[0], ast.Name) and x.targets[0].id == fname
-                        for x in test[0].body)
-        ft = [c for c in calls_in(fa.node) if (call_name(c) or "").endswith("find_turns") and norm_text(c.args[0]) == dbl[0].targets[0].id]
-        ok = ok and bool(init) and bool(ft)
+    if len(dbl) != 1 or not test:
+        raise AnalysisError("_adjust_samples_and_flush_for_hcm_first_run: look-ahead sequence / flush test not found")
+    A, B = dbl[0].value.args[0].elts
+    seq = norm_text(A)
+    ok = norm_text(test[0].test.left) == "len(%s) - 1" % seq and \
+        any(isinstance(x, ast.Assign) and const_value(x.value) is False for x in test[0].body)
+    rt = [s for s in fa.node.body if isinstance(s, ast.Return)][-1]
+    fname = rt.value.elts[1].id if isinstance(rt.value, ast.Tuple) and len(rt.value.elts) == 2 and \
+        isinstance(rt.value.elts[1], ast.Name) else None
+    init = [s for s in fa.node.body if isinstance(s, ast.Assign) and isinstance(s.targets[0], ast.Name) and
+            s.targets[0].id == fname and const_value(s.value) is True]
+    ok = ok and any(isinstance(x, ast.Assign) and isinstance(x.targets[0], ast.Name) and x.targets[0].id == fname
+                    for x in test[0].body) and bool(init)
     if ok:
-        ctx.holds(fa, test[0], "flush iff the last sample of the pass is a turning point of the doubled sequence")
+        ctx.holds(fa, test[0], "flush iff the last sample of pass 1 (index len(A)-1) is a turning point of the look-ahead sequence")
     else:
-        ctx.violated(fa, test[0] if test else fa.node, "flush decision is not 'last sample is a turning point of the doubled sequence'",
+        ctx.violated(fa, test[0], "flush decision is not 'the last sample of pass 1 is a turning point of the look-ahead sequence'",
                      text="flush decision")
+
+    def without_first(e, base):
+        # base[1:], np.asarray(base)[1:], base.iloc[1:], base.values[1:]
+        if isinstance(e, ast.Subscript) and isinstance(e.slice, ast.Slice) and const_value(e.slice.lower) == 1 and \
+                e.slice.upper is None and e.slice.step is None:
+            v = e.value
+            while True:
+                if isinstance(v, ast.Attribute) and v.attr in ("iloc", "values"):
+                    v = v.value
+                elif isinstance(v, ast.Call) and (call_name(v) or "") in ("np.asarray", "np.array") and v.args:
+                    v = v.args[0]
+                else:
+                    break
+            return norm_text(v) == base
+        return False
+    if without_first(B, seq):
+        ctx.holds(fa, dbl[0], "look-ahead = pass-1 samples (zero-prefixed) followed by the same samples without the zero, i.e. what "
+                  "pass 2 processes")
+    elif norm_text(B) == seq:
+        ctx.violated(fa, dbl[0], "the look-ahead sequence repeats the ZERO-PREFIXED samples (%s): the last sample of pass 1 is compared "
+                     "with the artificial zero load, but pass 2 continues with the first real sample. A last sample that is not a "
+                     "reversal of the repeated sequence (e.g. 100,-60,40,-20,60: -20 -> 60 -> 100) is flushed as if it were one, and "
+                     "a last sample between zero and the first sample is held back although it is a reversal" % norm_text(dbl[0].value),
+                     text=norm_text(dbl[0]))
+    else:
+        ctx.violated(fa, dbl[0], "the look-ahead sequence for the flush decision is %s; it must be the pass-1 samples followed by what "
+                     "pass 2 processes (the same samples without the prepended zero)" % norm_text(dbl[0].value), text=norm_text(dbl[0]))
 
 
 def _r2(ctx):
@@ -340,6 +369,31 @@ C = "FKMNonlinearDetector."
 
 def variants():
     out = []
+
+    def lookahead_without_zero(tree):
+        f = find_func(tree, "FKMNonlinearDetector._adjust_samples_and_flush_for_hcm_first_run")
+        for st in f.body:
+            if isinstance(st, ast.Assign) and isinstance(st.value, ast.Call) and call_name(st.value) == "np.concatenate" and \
+                    isinstance(st.value.args[0], ast.List) and len(st.value.args[0].elts) == 2 and \
+                    isinstance(st.value.args[0].elts[1], ast.Name):
+                a = st.value.args[0].elts[0]
+                st.value.args[0].elts[1] = parse_expr("np.asarray(%s)[1:]" % ast.unparse(a))
+                return True
+        return False
+    out.append(repair("look-ahead continues with the samples without the zero", FN, lookahead_without_zero, "R-C04-1",
+                      "_adjust_samples_and_flush_for_hcm_first_run"))
+
+    def lookahead_zero_only(tree):
+        f = find_func(tree, "FKMNonlinearDetector._adjust_samples_and_flush_for_hcm_first_run")
+        for st in f.body:
+            if isinstance(st, ast.Assign) and isinstance(st.value, ast.Call) and call_name(st.value) == "np.concatenate" and \
+                    isinstance(st.value.args[0], ast.List) and len(st.value.args[0].elts) == 2 and \
+                    isinstance(st.value.args[0].elts[1], ast.Name):
+                a = st.value.args[0].elts[0]
+                st.value.args[0].elts[1] = parse_expr("%s[:1]" % ast.unparse(a))
+                return True
+        return False
+    out.append(witness("look-ahead sees only the prepended zero", FN, lookahead_zero_only, "R-C04-1"))
 
     def sorted_groupby(tree):
         f = find_func(tree, "FKMNonlinearDetector.process")
